@@ -146,7 +146,7 @@ verus_unit("rescuev", "rescuev", ["C11"], [
     "Rp64_256::apply_round / apply_permutation / apply_sbox", "RpJive64_256::apply_round / apply_permutation / apply_sbox", "rp62_248::apply_round / apply_permutation",
     "round r == add ARK2[r] . MDS . inverse S-box . add ARK1[r] . MDS . S-box; permutation == 7 rounds in order; 64-bit S-box == lane-wise exp7 (template generated by tools/gen_rescue_units.py)"])
 
-native_unit("hash_native", "winter-crypto", "crypto", "native/hash_bounded.rs", ["C11", "C10"],
+native_unit("hash_native", "winter-crypto", "crypto", "native/hash_bounded.rs", ["C11", "C10", "C19"],
             ["Blake3_256::{hash, merge, merge_with_int, hash_elements}", "Blake3_192::{hash, merge, merge_with_int, hash_elements}", "Sha3_256::{hash, merge, merge_with_int, hash_elements}", "ByteDigest::digests_as_bytes", "FieldElement::elements_as_bytes"],
             "the byte-oriented hashers equal their documented definition computed directly with the blake3 / sha3 crates: hash(bytes) == H(bytes) (24-byte truncation for Blake3_192); merge([a, b]) == H(a || b); merge_with_int(seed, v) == H(seed || le64(v)); hash_elements == H(canonical little-endian encodings of the residues) whatever the internal representation (Montgomery words, lazy f62 representatives) and whether the residues are typed as base or as quadratic / cubic extension elements",
             "NATIVE EXECUTION, not a proof: 3 hashers x 3 base fields; byte strings of every length 0..=200 (seeded content); 40 seeded digest pairs x 17 integers at the 64-bit boundaries and around the moduli; element lists of 0..=20 elements produced by additions, negations, subtractions and products (non-normalised representatives), regrouped into quadratic / cubic elements")
